@@ -26,12 +26,38 @@ theorem lock_balanced {E : Type} (sem : Sem E) (sk : Sk) (hb : balanced sk = tru
     ∃ s', ((run sem sk {} e).1 = Out.fall s' ∨ (run sem sk {} e).1 = Out.returned s') ∧ exitHeld s' = some false :=
   balanced_sound sem sk hb e
 
-/-- Kernel verdict on the skeletons regenerated from the current wscreen.go: every method of wScreen other than
-`Suspend`/`Resume` is balanced.  (`_partial`: on the pinned tree those two are *not* – see `pinned_*` below and the
-finding `lock-leak` the check reports from the same evaluation; the full verdict for the current tree is the
-driver's answer to `wasm locks`, i.e. `Gen.wLockFacts.filter (¬ balanced)`.) -/
-theorem lock_balanced_tree_partial :
-    ∀ p ∈ Gen.wLockFacts, p.1 ≠ "Suspend" → p.1 ≠ "Resume" → balanced p.2 = true := by decide +kernel
+/-- **lock_balanced_tree** (full strength, current tree).  Kernel verdict on the skeletons regenerated from the current
+wscreen.go: EVERY method with receiver `*wScreen` – `Suspend` and `Resume` included – is balanced, so by `lock_balanced`
+every execution of every method entered with the mutex free returns with it free.  Holds since /repo 2cbae24 ("Suspend and
+Resume release the screen lock on every path"); on the pinned tree only the statement with those two methods excepted held
+(`pinned_not_balanced` below is the hand copy of the pinned bodies; finding `lock-leak`).  On a tree where some method
+leaks, this declaration fails to check and the `wasm locks` case reports the method and the failing path. -/
+theorem lock_balanced_tree : ∀ p ∈ Gen.wLockFacts, balanced p.2 = true := by decide +kernel
+
+/-- the names of the receiver methods a skeleton calls while they take the mutex themselves -/
+def callees : Sk → List String
+  | .nil | .ret => []
+  | .lock k | .unlock k | .deferUnlock k | .setRunning _ k | .post k => callees k
+  | .callLocking n k => n :: callees k
+  | .ite _ t f k => callees t ++ callees f ++ callees k
+  | .loop b k => callees b ++ callees k
+
+/-- `run`/`post` treat a `callLocking` step as "returns with the mutex as it found it"; that is justified on the current
+tree: every such callee is itself a method of the regenerated list, hence balanced by `lock_balanced_tree`. -/
+theorem callees_balanced : ∀ p ∈ Gen.wLockFacts, ∀ n ∈ callees p.2, ∃ sk, Gen.wLockFacts.lookup n = some sk ∧ balanced sk = true := by
+  have h : (Gen.wLockFacts.all fun p => (callees p.2).all fun n =>
+      match Gen.wLockFacts.lookup n with | some sk => balanced sk | none => false) = true := by decide +kernel
+  intro p hp n hn
+  have := List.all_eq_true.mp (List.all_eq_true.mp h p hp) n hn
+  cases hl : Gen.wLockFacts.lookup n with
+  | none => rw [hl] at this; cases this
+  | some sk => rw [hl] at this; exact ⟨sk, rfl, this⟩
+
+/-- non-vacuity: the list is the 47-odd methods of the source, `Suspend`/`Resume`/`Init` really take and release the mutex
+(their skeletons contain `lock`), and `HideCursor` has a locking callee -/
+example : 40 ≤ Gen.wLockFacts.length ∧ (Gen.wLockFacts.lookup "Suspend").isSome = true ∧ (Gen.wLockFacts.lookup "Resume").isSome = true ∧
+    Gen.wLockFacts.lookup "Suspend" ≠ some .nil ∧ callees ((Gen.wLockFacts.lookup "HideCursor").getD .nil) = ["ShowCursor"] := by
+  decide +kernel
 
 /-- wscreen.go:479-508 as pinned (hand copy, independent of the regenerated module) -/
 def pinnedSuspend : Sk := .lock (.ite "!t.running" (.unlock .ret) .nil (.setRunning false .ret))
@@ -94,10 +120,22 @@ example : ∀ name ∈ lifecycleMethods, balancedAt repairedFacts name = true :=
 example : ∃ st', lifeRun repairedFacts {} [.suspend, .resume] = some st' ∧ st'.held = false :=
   lifecycle_no_self_deadlock repairedFacts (by decide) _ {} rfl
 
-/-- `SetSize` and `Fini` of the current tree are balanced (kernel evaluation over the regenerated skeleton), so on
-the current tree the hypothesis of `lifecycle_no_self_deadlock` reduces to `Suspend` and `Resume`. -/
-theorem lifecycle_tree_partial : balancedAt Gen.wLockFacts "SetSize" = true ∧ balancedAt Gen.wLockFacts "Fini" = true := by
-  decide +kernel
+/-- the four lifecycle methods of the current tree are balanced (kernel evaluation over the regenerated skeleton; holds
+since /repo 2cbae24 – before it only `SetSize` and `Fini` were) -/
+theorem lifecycle_tree : ∀ name ∈ lifecycleMethods, balancedAt Gen.wLockFacts name = true := by decide +kernel
+
+/-- **lifecycle_no_self_deadlock_tree** (full strength, current tree): for the skeleton regenerated from the current
+wscreen.go, every sequence of Suspend / Resume / SetSize / Fini calls – any order, any length, any sizes – started with
+the mutex free returns from every call and ends with the mutex free.  (`Suspend(); Resume()` wedged the pinned code:
+`pinned_suspend_resume_deadlocks`.) -/
+theorem lifecycle_no_self_deadlock_tree (ops : List LifeOp) (st : LState) (h : st.held = false) :
+    ∃ st', lifeRun Gen.wLockFacts st ops = some st' ∧ st'.held = false :=
+  lifecycle_no_self_deadlock Gen.wLockFacts lifecycle_tree ops st h
+
+/-- non-vacuity on the regenerated skeleton: the sequence that wedged the pinned code runs to completion, and the
+methods are present (a missing method would count as "does not touch the mutex") -/
+example : (lifeRun Gen.wLockFacts {} [.suspend, .resume, .setSize 100 40, .suspend, .suspend, .resume, .resume, .fini]).map (·.held) = some false ∧
+    lifecycleMethods.all (fun n => (Gen.wLockFacts.lookup n).isSome) = true := by decide +kernel
 
 /-! ## 2. callbacks -/
 
